@@ -12,8 +12,8 @@ Local Open Scope nat_scope.
    the pool holds no Buffer twice; a Buffer a goroutine holds is not in the pool; no two goroutines hold the same
    Buffer; and a step of goroutine t changes no existing Buffer other than the one t holds - so nothing is touched
    after its Put, and nothing that another goroutine holds. *)
-Theorem C14_ownership_inv : forall fs hp pa pb ca cn progs sch w',
-  start_ok fs hp pa pb ca -> exec real fs (start hp pa pb ca cn progs) sch = Some w' ->
+Theorem C14_ownership_inv : forall fs hp pa pb ca cn ms progs sch w',
+  start_ok fs hp pa pb ca -> exec real fs (start hp pa pb ca cn ms progs) sch = Some w' ->
   ownership w' /\
   forall t pick now w'', step real fs w' (t, pick, now) = Some w'' ->
     forall j, j < length (heap w') -> nth_error (heap w'') j <> nth_error (heap w') j -> owns w' t j.
@@ -21,19 +21,21 @@ Proof. exact ownership_inv. Qed.
 Print Assumptions C14_ownership_inv.
 
 (* For every schedule (which goroutine moves, which pooled object a pool Get returns, what the clock says at a cache
-   lookup) and every goroutine t: what t can observe of the world - its writer's bytes, its buffer, its context, its
-   remaining program - is exactly the state of t's program run ALONE (spec/Isolated.v: private fresh buffer, direct
-   file reads, no pools, no cache, no other goroutine) for as many steps as t has taken. *)
-Theorem C14_isolation : forall fs hp pa pb ca cn progs sch w',
-  start_ok fs hp pa pb ca -> exec real fs (start hp pa pb ca cn progs) sch = Some w' ->
+   lookup) and every goroutine t: what t can observe of the world - its writer's bytes, the bytes its own bufio.Writer
+   holds, its buffer, its context value (once handles rendered, classes and scripts emitted or registered by the CSS
+   middleware), its remaining program - is exactly the state of t's program run ALONE (spec/Isolated.v: private fresh
+   buffer, private context value, direct file reads, no pools, no cache, no other goroutine) for as many steps as t has
+   taken. *)
+Theorem C14_isolation : forall fs hp pa pb ca cn ms progs sch w',
+  start_ok fs hp pa pb ca -> exec real fs (start hp pa pb ca cn ms progs) sch = Some w' ->
   forall t p cap, nth_error progs t = Some (p, cap) ->
   exists v', view w' t = Some v' /\ lrun fs (steps_of t sch) (linit cap p) = Some v'.
 Proof. exact isolation. Qed.
 Print Assumptions C14_isolation.
 
 (* A goroutine that has finished all its renders has written byte for byte what its renders write alone. *)
-Theorem C14_finished_outputs : forall fs hp pa pb ca cn progs sch w',
-  start_ok fs hp pa pb ca -> exec real fs (start hp pa pb ca cn progs) sch = Some w' ->
+Theorem C14_finished_outputs : forall fs hp pa pb ca cn ms progs sch w',
+  start_ok fs hp pa pb ca -> exec real fs (start hp pa pb ca cn ms progs) sch = Some w' ->
   forall t p cap th s, nth_error progs t = Some (p, cap) ->
   nth_error (threads w') t = Some th -> nth_error (sinks w') t = Some s ->
   prog th = [] -> own th = None -> bown th = None ->
@@ -41,10 +43,21 @@ Theorem C14_finished_outputs : forall fs hp pa pb ca cn progs sch w',
 Proof. exact finished_outputs. Qed.
 Print Assumptions C14_finished_outputs.
 
+(* In every reachable state, a step of goroutine t leaves every other goroutine's private state (its context value with
+   the once handles rendered and the classes and scripts emitted, its handle ids, its program) and every other
+   goroutine's writer (bytes received, bytes held by its own bufio.Writer, the bytes.Buffer it holds) as they were:
+   nothing one goroutine does reaches another's document or another's request context. *)
+Theorem C14_others_untouched : forall fs hp pa pb ca cn ms progs sch w',
+  start_ok fs hp pa pb ca -> exec real fs (start hp pa pb ca cn ms progs) sch = Some w' ->
+  forall t pick now w'', step real fs w' (t, pick, now) = Some w'' ->
+  forall u, u <> t -> nth_error (threads w'') u = nth_error (threads w') u /\ nth_error (sinks w'') u = nth_error (sinks w') u.
+Proof. exact others_untouched. Qed.
+Print Assumptions C14_others_untouched.
+
 (* In every reachable state, a development-mode lookup by any goroutine at any clock value returns what one
    sequential lookup with an empty cache returns for the same files. *)
-Theorem C14_cache_linear : forall fs hp pa pb ca cn progs sch w',
-  start_ok fs hp pa pb ca -> exec real fs (start hp pa pb ca cn progs) sch = Some w' ->
+Theorem C14_cache_linear : forall fs hp pa pb ca cn ms progs sch w',
+  start_ok fs hp pa pb ca -> exec real fs (start hp pa pb ca cn ms progs) sch = Some w' ->
   forall now f, fst (cache_lookup fs now (cache w') f) = fst (cache_lookup fs 0%N [] f).
 Proof. exact cache_linear. Qed.
 Print Assumptions C14_cache_linear.
@@ -59,8 +72,8 @@ Print Assumptions C14_cache_refresh.
 
 (* Once-handle ids (atomic.AddInt64 on the shared counter: one atomic action) are pairwise distinct across all
    goroutines under every interleaving. *)
-Theorem C14_once_handles_distinct : forall fs hp pa pb ca cn progs sch w',
-  start_ok fs hp pa pb ca -> exec real fs (start hp pa pb ca cn progs) sch = Some w' ->
+Theorem C14_once_handles_distinct : forall fs hp pa pb ca cn ms progs sch w',
+  start_ok fs hp pa pb ca -> exec real fs (start hp pa pb ca cn ms progs) sch = Some w' ->
   forall t1 t2 th1 th2 i j x, nth_error (threads w') t1 = Some th1 -> nth_error (threads w') t2 = Some th2 ->
   nth_error (ids th1) i = Some x -> nth_error (ids th2) j = Some x -> t1 = t2 /\ i = j.
 Proof. exact once_handles_distinct. Qed.
@@ -72,25 +85,39 @@ Print Assumptions C14_once_handles_distinct.
 Example C14_ex_start_ok : start_ok demo_fs stale_heap [0] [[]] [].
 Proof. exact demo_start_ok. Qed.
 Example C14_ex_run : exists sch w',
-  exec real demo_fs (start stale_heap [0] [[]] [] 41 demo_progs) sch = Some w' /\
+  exec real demo_fs (start stale_heap [0] [[]] [] 41 [] demo_progs) sch = Some w' /\
   souts w' = [ [x3c; x70; x3e; x61; x3c; x2f; x70; x3e]; [x62; x3c; x70; x3e]; [x63; x63] ] /\
   map ids (threads w') = [[43%N]; [42%N]; []] /\
   map (fun pc => alone_out demo_fs (snd pc) (fst pc)) demo_progs = souts w'.
 Proof. exact demo_run. Qed.
 
+(* requests behind the CSS middleware (class 1 registered) whose pages emit an unregistered class, and a goroutine that
+   renders into its own bufio.Writer between a header and a trailer it writes itself, interleaved step by step *)
+Example C14_ex_run2 : exists sch w',
+  exec real [] (start stale_heap [0] [[]] [] 0 [] demo_progs2) sch = Some w' /\ all_done w' = true /\
+  souts w' = [ [x68; x73; x74]; [x73]; [x73] ] /\
+  map (fun pc => alone_out [] (snd pc) (fst pc)) demo_progs2 = souts w'.
+Proof. exact demo_run2. Qed.
+
 (* ---- the leaks when the resets are removed or the release is reordered ---- *)
 (* no Buffer.Reset(w) after bufferPool.Get(): goroutine 0's bytes land in goroutine 1's response *)
 Lemma C14_isolation_needs_reset_on_get : exists sch w',
-  exec no_reset_on_get [] (start [] [] [] [] 0 two_renders) sch = Some w' /\ all_done w' = true /\
+  exec no_reset_on_get [] (start [] [] [] [] 0 [] two_renders) sch = Some w' /\ all_done w' = true /\
   souts w' = [[]; [x62; x61]] /\ alone_out [] 100 (render [Write [x61]]) = [x61].
 Proof. exact isolation_needs_reset_on_get. Qed.
 (* no Reset before Put of the bytes.Buffer: the next handler's response starts with the previous one *)
 Lemma C14_isolation_needs_reset_on_put : exists sch w',
-  exec no_reset_on_put [] (start [] [] [] [] 0 two_handlers) sch = Some w' /\ all_done w' = true /\
+  exec no_reset_on_put [] (start [] [] [] [] 0 [] two_handlers) sch = Some w' /\ all_done w' = true /\
   souts w' = [[x62; x61]; [x62]] /\ alone_out [] 100 (handler_render [Write [x61]]) = [x61].
 Proof. exact isolation_needs_reset_on_put. Qed.
 (* Put before Flush: two goroutines hold the same Buffer, and goroutine 0's bytes are lost *)
 Lemma C14_ownership_needs_flush_before_put : exists sch1 sch2 w1 w2,
-  exec put_then_flush [] (start [] [] [] [] 0 two_renders) sch1 = Some w1 /\ owns w1 0 0 /\ owns w1 1 0 /\
+  exec put_then_flush [] (start [] [] [] [] 0 [] two_renders) sch1 = Some w1 /\ owns w1 0 0 /\ owns w1 1 0 /\
   exec put_then_flush [] w1 sch2 = Some w2 /\ all_done w2 = true /\ souts w2 = [[]; [x62]].
 Proof. exact ownership_needs_flush_before_put. Qed.
+(* the middleware hands every request ONE map of its registered classes instead of adding them to the request's own
+   context value: with two requests past the middleware, the class request 0 emits is missing from request 1's document *)
+Lemma C14_isolation_needs_fresh_registry : exists sch w',
+  exec shared_registry [] (start [] [] [] [] 0 [1%N] two_mw_requests) sch = Some w' /\ all_done w' = true /\
+  souts w' = [[x73]; []] /\ alone_out [] 100 (mw_render [1%N] [EmitOnce 2 [x73]]) = [x73].
+Proof. exact isolation_needs_fresh_registry. Qed.
